@@ -6,6 +6,7 @@ mod model;
 mod node;
 mod ops;
 mod oracle;
+mod policy;
 mod run;
 mod world;
 
